@@ -10,6 +10,7 @@ import (
 	"bytes"
 	"encoding/binary"
 	"io"
+	"math"
 	"os"
 	"path"
 	"strings"
@@ -46,11 +47,14 @@ func (h *NFSProcedureHandler) handleCreate(body io.Reader, reply *RPCReply, auth
 	newUID := authCtx.EffectiveUID
 	newGID := authCtx.EffectiveGID
 	var isExclusive bool
+	var setSize bool
+	var newSize uint64
 	if createHow == 0 || createHow == 1 {
 		sattr, err := decodeSattr3(body)
 		if err != nil {
 			return nfsErrorWithWcc(reply, GARBAGE_ARGS), nil
 		}
+		setSize, newSize = sattr.SetSize, sattr.Size
 		if sattr.SetMode {
 			mode = sattr.Mode
 		}
@@ -89,6 +93,48 @@ func (h *NFSProcedureHandler) handleCreate(body io.Reader, reply *RPCReply, auth
 		Mode: os.FileMode(mode),
 		Uid:  newUID,
 		Gid:  newGID,
+	}
+
+	// RFC 1813 3.3.8: an object that already exists is never recreated (the
+	// backend's Create truncates). GUARDED reports NFS3ERR_EXIST, and so does
+	// any mode for a directory or symlink; EXCLUSIVE keeps its simplified
+	// idempotent reply; UNCHECKED returns the file as it is, resized only when
+	// the request sets size.
+	targetPath := path.Join(node.path, name)
+	if info, statErr := h.server.handler.fs.Lstat(targetPath); statErr == nil {
+		if createHow == 1 || !info.Mode().IsRegular() {
+			return h.createExistsReply(reply, NFSERR_EXIST, dirPreAttrs), nil
+		}
+		if createHow == 0 && setSize {
+			if newSize > uint64(math.MaxInt64) {
+				return h.createExistsReply(reply, NFSERR_INVAL, dirPreAttrs), nil
+			}
+			if err := h.server.handler.fs.Truncate(targetPath, int64(newSize)); err != nil {
+				return h.createExistsReply(reply, mapError(err), dirPreAttrs), nil
+			}
+			h.server.handler.attrCache.Invalidate(targetPath)
+		}
+		existingNode, lookupErr := h.server.handler.Lookup(targetPath)
+		if lookupErr != nil {
+			return h.createExistsReply(reply, mapError(lookupErr), dirPreAttrs), nil
+		}
+		handle := h.server.handler.fileMap.Allocate(existingNode)
+		existingNode.mu.RLock()
+		existingAttrsCopy := *existingNode.attrs
+		existingNode.mu.RUnlock()
+		var buf bytes.Buffer
+		xdrEncodeUint32(&buf, NFS_OK)
+		xdrEncodeUint32(&buf, 1)
+		xdrEncodeFileHandle(&buf, handle)
+		xdrEncodeUint32(&buf, 1)
+		if err := encodeFileAttributes(&buf, &existingAttrsCopy); err != nil {
+			return nfsErrorWithWcc(reply, NFSERR_IO), nil
+		}
+		if err := encodeWccData(&buf, dirPreAttrs, dirPreAttrs); err != nil {
+			return nfsErrorWithWcc(reply, NFSERR_IO), nil
+		}
+		reply.Data = buf.Bytes()
+		return reply, nil
 	}
 
 	newNode, err := h.server.handler.Create(node, name, attrs)
@@ -163,6 +209,19 @@ func (h *NFSProcedureHandler) handleCreate(body io.Reader, reply *RPCReply, auth
 
 	reply.Data = buf.Bytes()
 	return reply, nil
+}
+
+// createExistsReply builds a CREATE3resfail for a name that is already taken;
+// the directory is unchanged, so its pre-operation attributes serve as both
+// halves of the wcc_data.
+func (h *NFSProcedureHandler) createExistsReply(reply *RPCReply, status uint32, dirAttrs *NFSAttrs) *RPCReply {
+	var buf bytes.Buffer
+	xdrEncodeUint32(&buf, status)
+	if err := encodeWccData(&buf, dirAttrs, dirAttrs); err != nil {
+		return nfsErrorWithWcc(reply, status)
+	}
+	reply.Data = buf.Bytes()
+	return reply
 }
 
 // handleMkdir handles NFSPROC3_MKDIR - create a directory
